@@ -365,6 +365,25 @@ impl template::Write for Rec {
     }
 }
 
+/// A `template::Write` that overrides `write_text` ONLY (a writer that marks up or escapes literal text) and keeps the
+/// trait's defaults for the three hole callbacks: the defaults write through `fmt::Write`, so `write_text` must see
+/// exactly the template's text parts — never a hole's value, label or braces.
+struct RecText {
+    evs: Vec<String>,
+}
+impl fmt::Write for RecText {
+    fn write_str(&mut self, s: &str) -> fmt::Result {
+        self.evs.push(format!("RAW{}", hcommon::hex(s.as_bytes())));
+        Ok(())
+    }
+}
+impl template::Write for RecText {
+    fn write_text(&mut self, text: &str) -> fmt::Result {
+        self.evs.push(format!("T{}", hcommon::hex(text.as_bytes())));
+        Ok(())
+    }
+}
+
 fn unhex(h: &str) -> Vec<u8> {
     hcommon::unhex_atom(&format!("x{}", h)).unwrap_or_default()
 }
@@ -412,6 +431,17 @@ fn observe<P: Props>(r: template::Render<P>, nparts: usize, fail_at: Option<usiz
         fail = Some("rendering-is-not-the-concatenation-of-its-callbacks".to_string());
     } else if rr.is_ok() != fail_at.map(|k| k >= nparts).unwrap_or(true) {
         fail = Some("error-not-propagated".to_string());
+    } else if rr.is_ok() {
+        // (5) a writer that overrides `write_text` only
+        let mut rt = RecText { evs: Vec::new() };
+        let _ = r.write(&mut rt);
+        let texts = |evs: &[String]| evs.iter().filter(|e| e.starts_with('T')).cloned().collect::<Vec<_>>();
+        let bytes: Vec<u8> = rt.evs.iter().flat_map(|e| unhex(e.trim_start_matches("RAW").trim_start_matches('T'))).collect();
+        if texts(&rt.evs) != texts(&rec.evs) {
+            fail = Some("default-hole-callbacks-write-through-write_text".to_string());
+        } else if bytes != s.as_bytes() {
+            fail = Some("text-only-writer-renders-differently".to_string());
+        }
     }
     match fail {
         None => out,
